@@ -303,6 +303,38 @@ def _relevant_kw(rng, kname, cur, settable):
     return rng.choice(settable)
 
 
+def _alias(value):
+    """The bool/int look-alike of a literal (1 <-> True, 0 <-> False), also
+    inside lists: equal for Python, different for JSON Schema."""
+    if value is True:
+        return 1
+    if value is False:
+        return 0
+    if isinstance(value, int) and value in (0, 1):
+        return bool(value)
+    if isinstance(value, float) and value in (0.0, 1.0):
+        return bool(value)
+    if isinstance(value, list):
+        return [_alias(v) for v in value]
+    return value
+
+
+def _alias_variant(spec):
+    """A copy of an element spec whose const/enum literals are replaced by
+    their bool/int look-alikes; None if that changes nothing."""
+    if not isinstance(spec, dict) or "kw" not in spec:
+        return None
+    out = copy.deepcopy(spec)
+    changed = False
+    for key in ("const", "enum"):
+        if key in out["kw"]:
+            new = _alias(out["kw"][key])
+            if new != out["kw"][key] or repr(new) != repr(out["kw"][key]):
+                changed = changed or repr(new) != repr(out["kw"][key])
+                out["kw"][key] = new
+    return out if changed else None
+
+
 def gen_reconfig_for(rng, wg, model, path, kind, node, want_props, allow_parent=False):
     """A reconfiguration op for one specific node, or None."""
     if kind == "class":
@@ -342,6 +374,13 @@ def gen_reconfig_for(rng, wg, model, path, kind, node, want_props, allow_parent=
                 "required": rng.random() < 0.5,
                 "source": None,
             }
+            if attr in props and rng.random() < 0.3:
+                # replace a declaration by its bool/int look-alike (equal for
+                # Python's ==, a different schema)
+                variant = _alias_variant(props[attr].get("el"))
+                if variant is not None:
+                    pspec = dict(copy.deepcopy(props[attr]), el=variant)
+                    pspec.pop("_unbound", None)
             return {
                 "op": "set_prop",
                 "path": path,
@@ -367,11 +406,16 @@ def gen_reconfig_for(rng, wg, model, path, kind, node, want_props, allow_parent=
             return {"op": "set_kw", "path": path, "kw": kw, "val": {"unset": 1}}
     else:
         kw = _relevant_kw(rng, kname, cur, settable)
+    value = gen_kw_value(rng, wg, kw)
+    if kw in ("const", "enum") and kw in cur and rng.random() < 0.3:
+        alias = _alias(cur[kw])
+        if repr(alias) != repr(cur[kw]):
+            value = alias
     return {
         "op": "set_kw",
         "path": path,
         "kw": kw,
-        "val": {"set": gen_kw_value(rng, wg, kw)},
+        "val": {"set": value},
     }
 
 
